@@ -6,6 +6,7 @@ import Asn1.Generated
 import Proofs.TagLen
 import Proofs.RoundTrip
 import Proofs.TagReject
+import Proofs.Kernels
 
 namespace Asn1.C13
 
@@ -15,6 +16,14 @@ theorem tag_roundtrip (t : Tag) (isConstructed : Bool) (rest : Bytes) :
     decodeTag (encodeTag t isConstructed ++ rest)
       = .ok (⟨t.cls, t.constructed || isConstructed, t.num⟩, rest) :=
   decodeTag_encodeTag t isConstructed rest
+
+/-- **the identifier octets the source writes** (`AbstractItemEncoder.encodeTag`, translated from /repo on
+    this run into `GenK.encodeTag`) **decode back to exactly the tag**: class, number and the
+    constructed bit `tagFormat | isConstructed` — every class, every number in ℕ -/
+theorem source_identifier_roundtrip (t : Tag) (isConstructed : Bool) (rest : Bytes) :
+    ∃ b : Bytes, GenK.encodeTag (Kernels.tagTriple t) isConstructed = .ok (Kernels.bytesInts b) ∧
+      decodeTag (b ++ rest) = .ok (⟨t.cls, t.constructed || isConstructed, t.num⟩, rest) :=
+  ⟨encodeTag t isConstructed, Kernels.encodeTag_kernel t isConstructed, decodeTag_encodeTag t isConstructed rest⟩
 
 /-- explicit tagging refuses the UNIVERSAL class -/
 theorem explicit_refuses_universal (ts : TagSet) (num : Nat) :
